@@ -33,8 +33,8 @@ ASSUMPTIONS = ["the algebraic clauses are stated over Mathlib matrices (every se
 TRUSTED = ["numpy.linalg.cond (2-norm condition number) only to scale the class-B tolerance of Q and R"]
 
 K_QR = 32          # x eps x kappa   (entries of Q; entries of R additionally x max|M|)
-K_ORA = 64         # x eps x n       (backward-stable residuals ‖QR−M‖/‖M‖ and ‖QᵀQ−1‖)
-K_EIG = 2048       # x eps x max|lambda|: absolute accuracy of each eigenvalue
+K_ORA = 64         # flat: ‖QR−M‖ <= 64 eps max|M|, ‖QᵀQ−1‖ <= 64 eps (audit: worst 24.4 / 20.4 eps); R: exact zeros
+K_EIG = 512        # x eps x max|lambda|: absolute accuracy of each eigenvalue
 RES_TOL = 1e-8     # ‖Mv−λv‖ / ‖M‖ for eigenpairs (the loop's own tolerance is 1e-10 on the components)
 
 
@@ -401,14 +401,14 @@ def oracle_qr(n, M, Q, R):
     nm = Fraction(_absmax(M)) or Fraction(1)
     P = mmul(Qq, Rq)
     dev = max(abs(P[i][j] - Mq[i][j]) for i in range(n) for j in range(n))
-    if dev > K_ORA * n * EPS * nm * n:
+    if dev > K_ORA * EPS * nm:
         out.append(("QR_Decomposition: Q*R is not the matrix", "max dev %.3g (max|M| %.3g)" % (float(dev), float(nm))))
     G = mmul(mT(Qq), Qq)
     dev = max(abs(G[i][j] - int(i == j)) for i in range(n) for j in range(n))
-    if dev > K_ORA * n * EPS:
+    if dev > K_ORA * EPS:
         out.append(("QR_Decomposition: Q is not orthogonal (Q^T Q != 1)", "max dev %.3g" % float(dev)))
     low = max((abs(Rq[i][j]) for i in range(n) for j in range(i)), default=Fraction(0))
-    if low > K_ORA * n * EPS * nm:
+    if low != 0:          # the code assigns 0.0 below the diagonal: exact
         out.append(("QR_Decomposition: R is not upper triangular", "max sub-diagonal entry %.3g (max|M| %.3g)" % (float(low), float(nm))))
     return out
 
@@ -449,7 +449,7 @@ def _spectrum_check(vals, lam, Mf, what):
         out.append((what + ": the values are not the spectrum of the matrix", "max dev %.3g (max|lambda| %.3g): %s vs %s" % (
             float(dev), float(lmax), [float(g) for g in got], [float(e) for e in exp])))
     tr = sum(Fraction(Mf[i][i]) for i in range(n))
-    if abs(sum(got) - tr) > n * tol:
+    if abs(sum(got) - tr) > tol:
         out.append((what + ": the values do not sum to the trace", "%.17g vs %.17g" % (float(sum(got)), float(tr))))
     det = Fraction(1)
     for e in lam:
